@@ -32,6 +32,7 @@ def variants(arg, thorough):
     if len(pre) >= 1:
         out.append(({'prems': pre + pre[:1], 'conc': arg['conc']}, 1, 1, 'build', 0, 'duplicated'))
         out.append(({'prems': pre[:1] + pre, 'conc': arg['conc']}, 0, 0, 'build', 1, 'duplicated-front'))
+        out.append(({'prems': pre * 8, 'conc': arg['conc']}, 1, 1, 'build', 0, 'duplicated-x8'))
     return out
 
 
